@@ -127,6 +127,9 @@ func (c *Ctx) rulesC04(a *coreAnchors, la *LockAnalysis) {
 		cnt[fk]++
 		key := fmt.Sprintf("%s writes queue%s", fk, nth(cnt[fk]-1))
 		kind, ok := allowedW[fk]
+		if !ok {
+			kind, ok = allowedW[c.hostKey(w.Fn)]
+		}
 		if fk == pm+":New" {
 			continue
 		}
@@ -155,7 +158,7 @@ func (c *Ctx) rulesC04(a *coreAnchors, la *LockAnalysis) {
 			if sl, ok := w.Val.(*ssa.Slice); ok && loadOfField(sl.X) == a.fQueue && sl.High == nil {
 				if n, ok := constInt(sl.Low); ok && n == 1 {
 					// and element 0 is what is executed
-					for _, b := range pq.Blocks {
+					for _, b := range append(append([]*ssa.BasicBlock{}, pq.Blocks...), w.Fn.Blocks...) {
 						for _, ins := range b.Instrs {
 							if ia, ok := ins.(*ssa.IndexAddr); ok && loadOfField(ia.X) == a.fQueue {
 								if k, ok := constInt(ia.Index); ok && k == 0 {
@@ -241,6 +244,34 @@ func (c *Ctx) rulesC04(a *coreAnchors, la *LockAnalysis) {
 			for _, g := range guardsOf(r.Block()) {
 				if gAtomicLoadTruth("", a.fDisposing, true).Match(g) {
 					disposingExit = true
+				}
+				// the same test inside a private helper of processQueue that hands out
+				// the head of the queue (nil when there is none)
+				if bo, ok := g.Cond.(*ssa.BinOp); ok && ((bo.Op == token.EQL && g.Pol) || (bo.Op == token.NEQ && !g.Pol)) {
+					for _, side := range []ssa.Value{bo.X, bo.Y} {
+						call, ok := side.(*ssa.Call)
+						if !ok {
+							continue
+						}
+						h := call.Call.StaticCallee()
+						if h == nil || h == pq || !c.hostedBy(h, pq) {
+							continue
+						}
+						for _, hr := range returnsOf(h) {
+							if k, ok := retVals(hr)[0].(*ssa.Const); ok && k.IsNil() {
+								for _, hg := range guardsOf(hr.Block()) {
+									hv, hneg := stripNot(hg.Cond)
+									if b, ok := hv.(*ssa.BinOp); ok && (hg.Pol != hneg) && b.Op == token.LSS {
+										if lc, ok := b.X.(*ssa.Call); ok {
+											if bi, ok := lc.Call.Value.(*ssa.Builtin); ok && bi.Name() == "len" && loadOfField(lc.Call.Args[0]) == a.fQueue {
+												defensive = true
+											}
+										}
+									}
+								}
+							}
+						}
+					}
 				}
 				// defensive branch: len(m.queue) < 1 although queueLen > 0
 				v, neg := stripNot(g.Cond)
